@@ -37,6 +37,10 @@ def run(ctx):
     def allow_source(f, t):
         k = "%s|%s" % (f.id, short(t.path))
         if k in allow_src:
+            # the reviewed invariant is about what the function hands out: void when its return type changed
+            want = allow_src[k].get("returns")
+            if want is not None and f.local_ty(0) != want:
+                return False
             used_allow.add(k)
             return True
         return False
